@@ -110,8 +110,11 @@ func concurrent(run *ev.Run) {
 			names = append(names, strings.Join(th, "; "))
 		}
 		desc := "concurrent: " + sc.name + ": setup " + strings.Join(sc.setup, "; ") + " then " + strings.Join(names, " || ")
+		// every scenario has its own wall-clock share; a bound that does not finish inside it is
+		// reported as capped together with the last bound that was completed
+		deadline := time.Now().Add(time.Duration(run.Pick(60, 240)) * time.Second)
 		for b := 0; b <= bound; b++ {
-			st := vsched.Explore(vsched.Config{Name: sc.name, Bound: b, Stall: 120 * time.Second, MaxExec: run.Pick(20000, 300000)}, concBody(sc))
+			st := vsched.Explore(vsched.Config{Name: sc.name, Bound: b, Stall: 120 * time.Second, MaxExec: run.Pick(20000, 300000), Deadline: deadline}, concBody(sc))
 			if st.Infra != "" {
 				if st.StallReproduced {
 					run.Violation("call-never-returns-under-schedule", fmt.Sprintf("%s: the same schedule stalled three times: %s", sc.name, st.Infra), map[string]interface{}{"scenario": sc.name, "schedule": st.StallSchedule})
@@ -121,18 +124,18 @@ func concurrent(run *ev.Run) {
 				}
 				break
 			}
-			if b == bound || len(st.Failures) > 0 {
+			if b == bound || len(st.Failures) > 0 || !st.Complete {
 				totalExec += st.Executions
 				totalDec += st.Decisions
 				run.Sample(map[string]interface{}{"scenario": desc, "preemption_bound": b, "schedules": st.Executions, "distinct_outcomes": len(st.Outcomes), "complete": st.Complete})
 				if !st.Complete {
-					run.Capped("concurrent scenario capped: " + sc.name)
+					run.Capped(fmt.Sprintf("concurrent scenario capped at preemption bound %d (bounds below it complete): %s", b, sc.name))
 				}
 			}
 			for _, f := range st.Failures {
 				run.Violation(f.Key, fmt.Sprintf("%s, preemption bound %d: %s", desc, b, f.What), map[string]interface{}{"scenario": desc, "bound": b, "schedule": f.Schedule, "what": f.What})
 			}
-			if len(st.Failures) > 0 {
+			if len(st.Failures) > 0 || !st.Complete {
 				break
 			}
 		}
